@@ -397,6 +397,7 @@ class HasherHybrid(CbMixin, ProgMixin):
                     "length": plength,
                     "path": [".pad", str(plength)],
                 }
+                self.short_piece = piece.digest()
                 piece.update(bytes(plength))
             self.pieces.append(piece.digest())  # nosec
         if self.progress == 1:
@@ -550,6 +551,7 @@ class FileHasher(CbMixin, ProgMixin):
                     "length": plength,
                     "path": [".pad", str(plength)],
                 }
+                self.short_piece = piece.digest()
                 piece.update(bytes(plength))
             piece = piece.digest()
             self.pieces.append(piece)
